@@ -367,6 +367,32 @@ fn main() {
     s5.add("process_conformance_cases", slice.len() as u64);
     for (k, e) in res { ctx.violation("binary_differs_from_inprocess", k.clone(), json!({"kind":"proc","key":k}), e); }
 
+    // the version to convert is the argument and nothing else: every slice case again with something on stdin (another version, several
+    // lines, a Zerv document, garbage, nothing but an open pipe that closes late) and started in a directory holding a file named like the
+    // version - result and status must be those of the run with stdin at /dev/null
+    {
+        let stdins: [(&str, &str); 5] = [("another version", "9.9.9\n"), ("two versions", "9.9.9\n8.8.8\n"), ("garbage", "not a version\n"), ("a Zerv document", "(schema:(core:[var(Major),var(Minor),var(Patch)],extra_core:[],build:[]),vars:(major:Some(9),minor:Some(9),patch:Some(9)))"), ("blank line", "\n")];
+        let sub: Vec<&(String, &str, &str)> = slice.iter().step_by(3).collect();
+        let cwd = zvharness::gitx::scratch_root().join("c07-cwd");
+        std::fs::create_dir_all(&cwd).unwrap_or_else(|e| machinery_error(&format!("mkdir {cwd:?}: {e}")));
+        for (v, _, _) in &sub { if !v.is_empty() && !v.contains('/') && v.len() < 200 && v != "." && v != ".." { let _ = std::fs::write(cwd.join(v), "9.9.9\n"); } }
+        let bad: Vec<(String, String)> = sub.par_iter().flat_map(|(v, f, t)| {
+            let args = ["render", "-f", f, "--output-format", t, "--", v.as_str()];
+            let reference = zv::run_bin(&args, None, &[], None);
+            let mut bad = vec![];
+            for (name, text) in stdins.iter() {
+                let o = zv::run_bin(&args, Some(text), &[], None);
+                if o.stdout != reference.stdout || o.status != reference.status { bad.push((format!("{v} [{f}->{t}] with stdin holding {name}"), format!("stdin at /dev/null: exit {} {:?}; with {name} on stdin: exit {} {:?}", reference.status, reference.stdout_str(), o.status, o.stdout_str()))); }
+            }
+            let o = zv::run_bin(&args, None, &[], Some(&cwd));
+            if o.stdout != reference.stdout || o.status != reference.status { bad.push((format!("{v} [{f}->{t}] started in a directory holding a file of that name"), format!("elsewhere: exit {} {:?}; there: exit {} {:?}", reference.status, reference.stdout_str(), o.status, o.stdout_str()))); }
+            bad
+        }).collect();
+        s5.add("stdin_and_start_directory_runs", (sub.len() * (stdins.len() + 2)) as u64);
+        for (k, e) in bad { ctx.violation("render_depends_on_stdin_or_start_directory", k.clone(), json!({"kind":"proc-ambient","key":k}), e); }
+        let _ = std::fs::remove_dir_all(zvharness::gitx::scratch_root());
+    }
+
     // determinism
     let d = |()| cs.iter().take(1000).map(|c| { let mut st = Stats::default(); judge_canon(&ctx, c, &mut st); st }).fold(Stats::default(), Stats::merge).digest;
     if d(()) != d(()) { machinery_error("determinism replay diverged"); }
@@ -383,6 +409,7 @@ fn main() {
     cov.samples = vec![json!(cs[cs.len() / 2].semver()), json!(oor[3].semver()), json!(ps[ps.len() / 3]), json!(ts[ts.len() - 7])];
     cov.set("clause_counts", all.to_json());
     cov.set("process_conformance_cases", s5.get("process_conformance_cases"));
+    cov.set("stdin_and_start_directory_runs", s5.get("stdin_and_start_directory_runs"));
     cov.assumptions = vec!["round-trip equality of PEP 440 versions is version equality under R-PEP's key (trailing release zeros insignificant); string identity only for three release numbers".into(), "numbers explored at 0, 1, small values and the u32/u64 boundaries only".into()];
     finish(&ctx, cov);
 }
